@@ -555,6 +555,9 @@ def run(repo, chk):
         # cast must agree: literal, folded, run-time) - shared with the literal-narrowing tabulation C14.W2
         from . import c14
         c14.run(repo, Remap(chk, {'C14.W2': 'C09.M4'}))
+        # ... and the typechecker neither drops a narrowing on a round trip nor folds a comparison by a wrong range (typing census)
+        from .. import typecensus
+        typecensus.decide(repo, chk, 'C09.M4', {'casts kept', 'compare'}, 'hidc/ast/operators.py')
 
     # ---------------- M5 ---------------------------------------------------------------------
     bases = repo.class_bases(OPERATORS)
